@@ -43,6 +43,10 @@ class Env:
             self.keyfn_real = make_callback(faults, "keyfn", lambda t: t[0])
         if universe == "repr_keyfn":
             self.keyfn_real = make_callback(faults, "keyfn", lambda x: "k" + repr(x))
+        if universe == "mod_keyfn":
+            # a key function that is not injective: unequal items (0, 3, 6 / 1, 4 / ...) share a key, and both a
+            # falsy item (0) and a falsy key (0) occur
+            self.keyfn_real = make_callback(faults, "keyfn", lambda i: i % 3)
         if universe == "kitem_typed":
             self.ctor = K[self.KItem, str]
         elif universe == "str_typed":
@@ -85,6 +89,8 @@ class Env:
             return item[0]
         if u == "repr_keyfn":
             return "k" + repr(item)
+        if u == "mod_keyfn":
+            return item % 3
         if u.startswith("kitem") and type(item).__name__ == "KItem":
             return item.__dict__.get("k")
         return item
@@ -108,6 +114,8 @@ class Env:
             if u in ("tuple_keyfn", "tuple_typed"):
                 if not isinstance(item, tuple) or not item:
                     return False
+            if u == "mod_keyfn" and (isinstance(item, bool) or not isinstance(item, int)):
+                return False
             hash(self.key(item))
             return True
         except Exception:
@@ -121,6 +129,8 @@ class Env:
             return src.choice(keys)
         if u == "int":
             return src.choice([0, 1, 2, 3, 7])
+        if u == "mod_keyfn":
+            return src.choice([0, 1, 2, 3, 4, 6])
         if u == "repr_keyfn":  # falsy and truthy items, identified by an explicit key function
             return src.choice([0, 1, "", "a", ["tuple", []], ["tuple", [1]]])
         if u in ("tuple_keyfn", "tuple_typed"):
@@ -143,6 +153,8 @@ class Env:
             return ["list", [1]]  # unhashable, not a keyed spec
         if u in ("str", "int"):
             return ["list", [1]]
+        if u == "mod_keyfn":
+            return src.choice(["s", ["list", [1]]])  # the key function fails (TypeError)
         if u == "repr_keyfn":
             return 7  # nothing is ill-formed for a repr-keyed untyped container (unhashable items have their own universe)
         return 5
